@@ -57,7 +57,6 @@ class NativeLock:
         self.name, self.held, self.trace = name, bool(held), trace
 
     def acquire(self, blocking=True, timeout=-1):
-        self.trace.append((self.name + '.acquire', (), {}))
         if self.held:
             if blocking and timeout == -1:
                 raise Deadlock('acquire of held lock %s' % self.name)
@@ -66,7 +65,6 @@ class NativeLock:
         return True
 
     def release(self):
-        self.trace.append((self.name + '.release', (), {}))
         if not self.held:
             raise RuntimeError('release unlocked lock')
         self.held = False
@@ -90,7 +88,6 @@ class NativeQueue:
         self.name, self.items, self.maxsize, self.trace = name, list(items), maxsize, trace
 
     def put(self, item, block=True, timeout=None):
-        self.trace.append((self.name + '.put', (item,), {}))
         if self.maxsize and len(self.items) >= self.maxsize:
             if block and timeout is None:
                 raise Deadlock('put on full queue')
@@ -101,7 +98,6 @@ class NativeQueue:
         return self.put(item, False)
 
     def get(self, block=True, timeout=None):
-        self.trace.append((self.name + '.get', (), {}))
         if not self.items:
             if block and timeout is None:
                 raise Deadlock('get on empty queue')
@@ -110,6 +106,10 @@ class NativeQueue:
 
     def get_nowait(self):
         return self.get(False)
+
+    @property
+    def queue(self):
+        return tuple(self.items)
 
     def empty(self):
         return not self.items
@@ -129,7 +129,6 @@ class NativeEvent:
         self.name, self.flag, self.trace = name, flag, trace
 
     def set(self):
-        self.trace.append((self.name + '.set', (), {}))
         self.flag = True
 
     def clear(self):
@@ -139,7 +138,6 @@ class NativeEvent:
         return self.flag
 
     def wait(self, timeout=None):
-        self.trace.append((self.name + '.wait', (), {}))
         return True if self.flag or timeout is None else False
 
 
@@ -190,6 +188,70 @@ class NativeExt:
 
     def __repr__(self):
         return '<NativeExt %s>' % self.__dict__['_name']
+
+
+def make_model_thread(ctx):
+    """Deterministic stand-in for threading.Thread (c.model_threads): the same scheduler as
+    models2._model_thread, with the choices 'sched!k' taken from the solver model."""
+    st = {'pending': [], 'nthreads': 0, 'nsched': 0}
+
+    def sched_point(must):
+        while True:
+            opts = list(st['pending'])
+            if not opts:
+                return
+            can_stop = must is None or must._state != 'pending' or must not in opts
+            n = len(opts) + (1 if can_stop else 0)
+            pick = 0
+            if n > 1:
+                name = 'sched!%d' % st['nsched']
+                st['nsched'] += 1
+                pick = int(ctx._val(name))
+                if not 0 <= pick < n:
+                    raise KeyError('schedule choice %s=%d out of range %d' % (name, pick, n))
+            if pick == len(opts):
+                return
+            t = opts[pick]
+            st['pending'].remove(t)
+            ctx.trace.append((t._name + '.run', (), {}))
+            try:
+                t._target(*t._args, **t._kwargs)
+            except Exception as e:
+                ctx.trace.append((t._name + '.uncaught', (e,), {}))
+            t._state = 'done'
+            ctx.trace.append((t._name + '.end', (), {}))
+
+    class ModelThread:
+        def __init__(self, group=None, target=None, name=None, args=(), kwargs=None, *, daemon=None):
+            self._name = 'thread!%d' % st['nthreads']
+            st['nthreads'] += 1
+            self._target, self._args, self._kwargs = target, args, dict(kwargs or {})
+            self._state = 'new'
+            self.daemon = bool(daemon)
+            self.name = self._name
+            ctx.trace.append(('Thread', (), {'thread': self, 'target': target, 'args': args}))
+
+        def start(self):
+            ctx.trace.append((self._name + '.start', (), {}))
+            if self._state != 'new':
+                raise RuntimeError('threads can only be started once')
+            self._state = 'pending'
+            st['pending'].append(self)
+            sched_point(None)
+
+        def join(self, timeout=None):
+            ctx.trace.append((self._name + '.join', (timeout,) if timeout is not None else (), {}))
+            if self._state == 'new':
+                raise RuntimeError('cannot join thread before it is started')
+            sched_point(None if timeout is not None else self)
+
+        def is_alive(self):
+            ctx.trace.append((self._name + '.is_alive', (), {}))
+            return self._state == 'pending'
+
+        def __repr__(self):
+            return '<ModelThread %s %s>' % (self._name, self._state)
+    return ModelThread
 
 
 def resolve(ref):
@@ -279,11 +341,16 @@ class NativeCtx:
         self.ns = {}
         self.results = []       # (name, cls, ok, detail)
         self.float_mode = contract.opts.get('float_mode', 'FP')
+        self._patched = []
+        self._counters = {}
         self._install_helpers()
 
-    def _val(self, name):
+    def _val(self, name, default=None):
         if name not in self.values:
-            raise KeyError('model has no value for input %s' % name)
+            # inputs declared after the point at which the model was taken: any value will do
+            if default is None:
+                raise KeyError('model has no value for input %s' % name)
+            return default
         return self.values[name]
 
     def _reg(self, name, v):
@@ -291,13 +358,13 @@ class NativeCtx:
         return v
 
     def int(self, name, lo=None, hi=None):
-        return self._reg(name, int(self._val(name)))
+        return self._reg(name, int(self._val(name, lo if lo is not None else (hi if hi is not None and hi < 0 else 0))))
 
     def bool(self, name):
-        return self._reg(name, bool(self._val(name)))
+        return self._reg(name, bool(self._val(name, False)))
 
     def float(self, name, finite=False):
-        v = self._val(name)
+        v = self._val(name, {'f64bits': 0})
         if 'f64bits' in v:
             x = struct.unpack('<d', struct.pack('<Q', v['f64bits']))[0]
         else:
@@ -310,7 +377,7 @@ class NativeCtx:
         return float(v['real'])
 
     def floats(self, name, n, kind='list', finite=False):
-        v = [self._f(x) for x in self._val(name)]
+        v = [self._f(x) for x in self._val(name, [{'f64bits': 0}] * n)]
         return self._reg(name, tuple(v) if kind == 'tuple' else v)
 
     def get(self, name):
@@ -320,13 +387,13 @@ class NativeCtx:
         self.ns[helper] = resolve(ref)
 
     def bytes(self, name, n):
-        return self._reg(name, bytes(self._val(name)))
+        return self._reg(name, bytes(self._val(name, [0] * n)))
 
     def bytearray(self, name, n):
-        return self._reg(name, bytearray(self._val(name)))
+        return self._reg(name, bytearray(self._val(name, [0] * n)))
 
     def ints(self, name, n, lo=None, hi=None, kind='list'):
-        v = list(self._val(name))
+        v = list(self._val(name, [lo if lo is not None else 0] * n))
         if kind == 'tuple':
             v = tuple(v)
         elif kind == 'bytes':
@@ -336,15 +403,15 @@ class NativeCtx:
         return self._reg(name, v)
 
     def str(self, name, n, lo=32, hi=126):
-        return self._reg(name, ''.join(chr(c) for c in self._val(name)) if n else '')
+        return self._reg(name, ''.join(chr(c) for c in self._val(name, [lo] * n)) if n else '')
 
     def seq(self, name, kind='bytes', maxlen=None):
-        v = list(self._val(name))
+        v = list(self._val(name, []))
         v = {'bytes': bytes, 'bytearray': bytearray, 'list': list, 'tuple': tuple}[kind](v)
         return self._reg(name, v)
 
     def choice(self, name, options):
-        return self._reg(name, options[int(self._val(name))])
+        return self._reg(name, options[int(self._val(name, 0))])
 
     def let(self, name, value):
         return self._reg(name, value)
@@ -389,6 +456,14 @@ class NativeCtx:
         e = NativeEvent(name, flag, self.trace)
         self.ns.setdefault(name, e)
         return e
+
+    def model_threads(self, modref):
+        """replace the name `Thread` of repository module modref by the deterministic ModelThread"""
+        mod = importlib.import_module(modref)
+        cur = mod.__dict__.get('Thread')
+        if cur is not threading.Thread and getattr(cur, '__name__', '') != 'ModelThread':
+            raise RuntimeError('%s.Thread is not threading.Thread' % modref)
+        mod.Thread = make_model_thread(self)
 
     def func(self, ref):
         return resolve(ref)
@@ -444,6 +519,93 @@ class NativeCtx:
             self.ns['exc_tb'] = traceback.format_exc()
         self.ns['trace'] = tuple(self.trace)
         return self.ns['result']
+
+    def set(self, obj, attr, value):
+        setattr(obj, attr, value)
+
+    def getfield(self, obj, attr):
+        return getattr(obj, attr)
+
+    def use_stubs(self, modref, names):
+        mod = importlib.import_module(modref)
+        trace = self.trace
+        ctx = self
+        for nm in names:
+            if not hasattr(mod, nm):
+                raise AttributeError('%s has no %s to stub' % (modref, nm))
+            self._patched.append((mod, nm, getattr(mod, nm)))
+            if nm == 'Timer':
+                class NativeTimer:
+                    def __init__(self, interval, function, args=None, kwargs=None):
+                        self.interval, self.function = interval, function
+                        self.name = 'timer!%d' % ctx._counter('timer')
+                        trace.append(('Timer', (interval, function), {'timer': self}))
+
+                    def start(self):
+                        trace.append((self.name + '.start', (), {}))
+
+                    def cancel(self):
+                        trace.append((self.name + '.cancel', (), {}))
+
+                    def __bool__(self):
+                        return True
+                setattr(mod, nm, NativeTimer)
+            elif nm == 'Thread':
+                class NativeThread:
+                    def __init__(self, group=None, target=None, name=None, args=(), kwargs=None, daemon=None):
+                        self.target, self.t_args = target, args
+                        self.name = 'thread!%d' % ctx._counter('thread')
+                        self.daemon = daemon
+                        trace.append(('Thread', (), {'thread': self, 'target': target, 'args': args}))
+
+                    def start(self):
+                        trace.append((self.name + '.start', (), {}))
+
+                    def join(self, timeout=None):
+                        trace.append((self.name + '.join', (), {}))
+
+                    def is_alive(self):
+                        return False
+                setattr(mod, nm, NativeThread)
+            elif nm == 'time':
+                class NativeTimeModule:
+                    @staticmethod
+                    def sleep(d):
+                        trace.append(('time.sleep', (d,), {}))
+                        if d < 0:
+                            raise ValueError('sleep length must be non-negative')
+
+                    @staticmethod
+                    def time():
+                        v = ctx._next_time()
+                        trace.append(('time.time', (), {'value': v}))
+                        return v
+                setattr(mod, nm, NativeTimeModule)
+            elif nm == 'sleep':
+                def sleep(d):
+                    trace.append(('time.sleep', (d,), {}))
+                    if d < 0:
+                        raise ValueError('sleep length must be non-negative')
+                setattr(mod, nm, sleep)
+            else:
+                raise AttributeError('no stub kind for %s' % nm)
+
+    def _counter(self, key):
+        n = self._counters.get(key, 0)
+        self._counters[key] = n + 1
+        return n
+
+    def _next_time(self):
+        k = 'time.time!%d' % self._counter('time.time')
+        v = self.values.get(k)
+        if v is None:
+            self._tlast = getattr(self, '_tlast', 1000.0) + 1.0
+            return self._tlast
+        return self._f(v)
+
+    def unpatch(self):
+        for mod, nm, old in reversed(self._patched):
+            setattr(mod, nm, old)
 
     def invoke(self, target, *args, **kwargs):
         f = resolve(target) if isinstance(target, str) else (getattr(target[0], target[1]) if isinstance(target, tuple) else target)
@@ -551,6 +713,8 @@ def run_job(job):
             rec['error'] = 'precondition-not-met: %s' % e
         except Exception as e:
             rec['error'] = 'contract-run-raised %s: %s\n%s' % (type(e).__name__, e, traceback.format_exc()[-1500:])
+        finally:
+            ctx.unpatch()
         rec['ensures'] = [list(r) for r in ctx.results]
         rec['raised'] = ctx.ns.get('raised')
         rec['exc'] = _summ(ctx.ns.get('exc')) if ctx.ns.get('exc') is not None else None
